@@ -257,7 +257,7 @@ pub fn file_slot(cb: u32) -> impl Strategy<Value = Slot> {
         })
 }
 
-pub fn slots_strategy(cb: u32, depth: u32, max: usize) -> BoxedStrategy<Vec<Slot>> {
+pub fn slots_strategy(cb: u32, depth: u32, max: usize, full: bool) -> BoxedStrategy<Vec<Slot>> {
     let leaf = prop_oneof![5 => file_slot(cb).boxed(), 1 => deleted_slot().boxed()];
     let elem: BoxedStrategy<Slot> = if depth == 0 {
         leaf.boxed()
@@ -265,9 +265,15 @@ pub fn slots_strategy(cb: u32, depth: u32, max: usize) -> BoxedStrategy<Vec<Slot
         let sub = (
             pool_name(),
             prop_oneof![5 => Just(0x10u8), 1 => Just(0x30u8), 1 => Just(0x12u8)],
-            slots_strategy(cb, depth - 1, 6),
-            prop_oneof![5 => Just(0u8), 1 => (1u8..3)],
-            prop_oneof![4 => Just(None), 1 => Just(Some(0u16)), 1 => Just(Some(1u16)), 1 => Just(Some(2u16))],
+            slots_strategy(cb, depth - 1, 6, full),
+            // `full`: sub-directories that span several clusters and have 0-2 free slots left, so
+            // that a create or two makes them grow
+            if full { prop_oneof![2 => Just(0u8), 1 => (1u8..3), 3 => (0x81u8..0x84)].boxed() } else { prop_oneof![5 => Just(0u8), 1 => (1u8..3)].boxed() },
+            if full {
+                prop_oneof![1 => Just(None), 2 => Just(Some(0u16)), 2 => Just(Some(1u16)), 2 => Just(Some(2u16))].boxed()
+            } else {
+                prop_oneof![4 => Just(None), 1 => Just(Some(0u16)), 1 => Just(Some(1u16)), 1 => Just(Some(2u16))].boxed()
+            },
             times(),
         )
             .prop_flat_map(|(name, attr, children, extra, pad_free, times)| {
@@ -315,6 +321,8 @@ pub struct VolBias {
     pub tight: bool,
     pub stale: bool,
     pub max_depth: u32,
+    /// multi-cluster sub-directories with 0-2 free slots are common (directory growth)
+    pub full_dirs: bool,
 }
 
 impl Default for VolBias {
@@ -324,6 +332,7 @@ impl Default for VolBias {
             tight: false,
             stale: false,
             max_depth: 2,
+            full_dirs: false,
         }
     }
 }
@@ -355,9 +364,9 @@ pub fn vol_strategy(bias: VolBias) -> impl Strategy<Value = VolSpec> {
         (
             Just(geom),
             usable,
-            slots_strategy(cb, bias.max_depth, 10),
+            slots_strategy(cb, bias.max_depth, 10, bias.full_dirs),
             pad,
-            prop_oneof![5 => Just(0u8), 1 => (1u8..3)],
+            if bias.full_dirs { prop_oneof![3 => Just(0u8), 1 => (1u8..3), 2 => (0x81u8..0x84)].boxed() } else { prop_oneof![5 => Just(0u8), 1 => (1u8..3)].boxed() },
             if bias.stale { Just(true).boxed() } else { prop::bool::weighted(0.5).boxed() },
         )
             .prop_map(|(geom, usable, root, root_pad_free, root_extra, stale)| VolSpec {
